@@ -21,6 +21,7 @@ open Model.Locate
 inductive Out (α : Type) where
   | ok (v : α)
   | unstable (why : String)
+  deriving DecidableEq
 
 instance : Monad Out where
   pure := .ok
